@@ -156,16 +156,8 @@ func concHarness(raw json.RawMessage, cfg vrt.Config) (vrt.Result, Outcome) {
 		if a.NoLin {
 			return
 		}
-		// the final state is part of the history
-		d, err := fsx.Dump(w.Srv, probe)
-		st := vrt.Steps() + 1
-		es := ""
-		if err != nil {
-			es = err.Error()
-		}
-		hist = append(hist, lin.Op{Client: 99, Inv: st, Ret: st, In: concIn{Dump: true}, Out: concOut{Dump: d, Err: es}})
-		// structure, allocators and caches of the final state (C04/C05/C10 oracles on concurrent runs)
-		vrt.Quiesce()
+		// structure, allocators and caches of the final state (C04/C05/C10 oracles on concurrent runs): read from the disk
+		// and the server's state, before the dump through the API (which may trip over a damaged structure)
 		fr := w.Fsck()
 		for _, e := range fr.Errors {
 			post = append(post, &report.Violation{Property: "C04", Sig: "concurrent|" + a.Name + "|" + ruleOf(e), Detail: e})
@@ -176,6 +168,14 @@ func concHarness(raw json.RawMessage, cfg vrt.Config) (vrt.Result, Outcome) {
 		for _, e := range w.Audit(fr) {
 			post = append(post, &report.Violation{Property: "C10", Sig: "concurrent|" + a.Name + "|" + ruleOf(e), Detail: e})
 		}
+		// the final state is part of the history
+		d, err := fsx.Dump(w.Srv, probe)
+		st := vrt.Steps() + 1
+		es := ""
+		if err != nil {
+			es = err.Error()
+		}
+		hist = append(hist, lin.Op{Client: 99, Inv: st, Ret: st, In: concIn{Dump: true}, Out: concOut{Dump: d, Err: es}})
 	})
 	// outcome key: replies per client in program order
 	sorted := append([]lin.Op{}, hist...)
@@ -199,6 +199,12 @@ func concHarness(raw json.RawMessage, cfg vrt.Config) (vrt.Result, Outcome) {
 		return res, outc
 	}
 	if v := VerdictViolation(&res, "C03", a.Name); v != nil {
+		for _, pv := range post {
+			if a.Prefer != "" && pv.Property == a.Prefer {
+				outc.Viol = pv // (the final dump crashed on a structure that the calling check's oracle had already judged)
+				return res, outc
+			}
+		}
 		if res.Verdict == vrt.VDeadlock || res.Verdict == vrt.VHorizon {
 			v.Property = "C06"
 		}
